@@ -282,8 +282,29 @@ def check_history(ctx, case, drv):
                 else:
                     c = copy.deepcopy(_cls(src, spath))
                 _cls(trees[dj]["tree"], dparent).add_class(c)
+            gsnap = a04.Graph([tr["tree"] for tr in trees]) if drv is not None else None
+            sig0 = gsnap.signatures() if gsnap is not None else None
+            idx0 = a04.outcome(lambda: (gsnap.idx(_cls(trees[si]["tree"], spath)), gsnap.idx(_cls(trees[dj]["tree"], dparent)))) \
+                if gsnap is not None else ("exc", "")
             r = confined(ctx, trees, dj, real, dict(small, upto=n + 1))
             ctx.count("op-graft-%s%s" % (how, "" if r[0] == "ok" else "-rejected"))
+            if gsnap is not None and r[0] == "ok" and idx0[0] == "ok":
+                # the model performs the same edit on the same snapshot: same objects written, same new class
+                sig1 = gsnap.signatures()
+                written = [k for k in range(len(sig0)) if sig0[k] != sig1[k]]
+                newc = a04.outcome(lambda: _cls(trees[dj]["tree"], dparent).classes.get(sd["name"]))
+                newc = newc[1] if newc[0] == "ok" else None
+                ans = drv.ask({"op": "graph.graft", "heap": gsnap.to_json(), "cfg": c05.cfg_for_model(ctx),
+                               "c": idx0[1][0], "holder": idx0[1][1]})
+                ctx.count("model-graft")
+                if not ans.get("ok"):
+                    raise HarnessError("model driver rejected graft: %s" % ans)
+                if sorted(ans.get("written") or []) != written:
+                    ctx.disagreement("graft-writes", dict(small, upto=n + 1), ans.get("written"),
+                                     [(k, gsnap.rows[k][0], gsnap.rows[k][4]) for k in written])
+                elif newc is not None and ans["result"] != a04.shape(newc, gsnap):
+                    ctx.disagreement("graft-shape", dict(small, upto=n + 1), json.dumps(ans["result"])[:600],
+                                     json.dumps(a04.shape(newc, gsnap))[:600])
             if r[0] != "ok":
                 ctx.violation("adding to a tree a copy of a class of another tree raised %s" % r[1],
                               dict(small, upto=n + 1), "edit applied", r[1], "history")
@@ -380,10 +401,10 @@ def gen_history(ctx, rng, nops):
             ops.append(["copy", i, ncopy < 2])      # the first two copies of a history are also put to the model
             descs.append(copy.deepcopy(d))
             ncopy += 1
-        elif r < 0.28 and paths:
+        elif r < 0.28 and [x for x in paths if not a04.find_desc(d, x)["prefix"]]:
             # add to tree j a copy (find_class / deepcopy) of a class of tree i; then flatten it in both trees
             # (a `replaceable` class is an element, not a stored definition: it cannot be regenerated at top level)
-            sp = rng.choice([x for x in paths if not a04.find_desc(d, x)["prefix"]] or paths)
+            sp = rng.choice([x for x in paths if not a04.find_desc(d, x)["prefix"]])
             j = rng.randrange(len(descs))
             dd = descs[j]
             dfull = [list(x) for x in a04.class_paths(dd) if a04.find_desc(dd, x)["short"] is None
